@@ -93,7 +93,7 @@ Proof. exact getitem_adv_before. Qed.
 Print Assumptions C08_getitem_adv_before_stack_dim.
 
 (* the full statement (any single advanced index: also ON the stack dim, masks reaching across it, nested stacks) is NOT
-   proved: those placements are covered by the correspondence run only; several are refuted by the code (D28-D31, D34) *)
+   proved: those placements are covered by the correspondence run only; the repairs C08-D28/D29/D30/D34 of those paths are in the model and exercised by the correspondence run *)
 Definition C08_getitem_one_adv_full_statement : Prop :=
   forall fuel self bs idx a' rsd,
     wf_tree self bs -> Forall (fun it => is_ell it = false) idx -> one_adv idx -> res_shape idx bs = Some rsd ->
@@ -113,32 +113,27 @@ Theorem C08_setitem_slice_plan : forall fuel sd bs0 parts bs pre a b c post v vs
 Proof. exact setitem_slice_plan. Qed.
 Print Assumptions C08_setitem_slice_plan.
 
-(* write_through [refuted] (D23): an integer tensor that is the whole index on stack dim 0 REPLACES member objects *)
-Theorem C08_write_through_refuted :
-  exists self idx vsh plan slot src,
-    wf_tree self [2; 3] /\ run_setitem 3 self idx vsh = Ok plan /\ In (WReplace slot src) plan.
-Proof. exact write_through_refuted. Qed.
-Print Assumptions C08_write_through_refuted.
+(* write_through on the former D23 region (repaired by fix C08-D23): lazy[T] = V with an integer tensor T of rank 1 that is
+   the whole index on stack dim 0 updates member T[i] IN PLACE with V[i], for every T; no member object is replaced *)
+Theorem C08_setitem_tensor_alone : forall fuel bs0 parts bs k vals v vsh plan,
+  parts <> [] -> Forall (fun p => shape_of p = Some bs /\ is_stack p = false) parts ->
+  shape_of v = Some vsh -> res_shape [ITen [k] vals] (insert_at 0 (lenZ parts) bs) = Some vsh ->
+  lz_setitem (S (S fuel)) (Stack 0 bs0 parts) [ITen [k] vals] v = Ok plan ->
+  exists ms, Forall2 (fun j m => member parts j = Ok m) vals ms /\ plan = tensor_plan_of ms v.
+Proof. exact setitem_tensor_alone. Qed.
+Print Assumptions C08_setitem_tensor_alone.
 
 (* ---- shape operations -------------------------------------------------------------------------------------- *)
-(* lazy_shape_ops / transpose [partial]: every rank, every stack dim, every pair of dims outside the D26 region *)
-Theorem C08_transpose_partial : forall sd bs0 parts bs,
+(* lazy_shape_ops / transpose [full for flat stacks] (after fix C08-D26): every rank, every stack dim, EVERY pair of dims *)
+Theorem C08_transpose : forall sd bs0 parts bs,
   parts <> [] -> Forall (fun p => shape_of p = Some bs) parts -> Forall (fun p => is_stack p = false) parts ->
   (sd <= List.length bs)%nat ->
   forall fuel d0 d1 a',
   (d0 < d1 < S (List.length bs))%nat ->
-  negb ((Nat.eqb d0 sd && (d0 + 3 <=? d1)%nat) || (Nat.eqb d1 sd && (d0 + 2 <=? d1)%nat)) = true ->
   lz_transpose (S fuel) (Stack sd bs0 parts) (Z.of_nat d0) (Z.of_nat d1) = Ok a' ->
   equiv_in a' (Transp d0 d1 (Stack sd bs0 parts)).
-Proof. exact transpose_partial. Qed.
-Print Assumptions C08_transpose_partial.
-
-(* [refuted] (D26): inside the region the result does not even have the dense batch size *)
-Theorem C08_transpose_refuted :
-  exists self d0 d1 a', wf_tree self [2; 2; 3; 1] /\ lz_transpose 3 self d0 d1 = Ok a' /\
-                        shape_of a' <> shape_of (Transp (Z.to_nat d0) (Z.to_nat d1) self).
-Proof. exact transpose_refuted. Qed.
-Print Assumptions C08_transpose_refuted.
+Proof. exact transpose_full. Qed.
+Print Assumptions C08_transpose.
 
 (* unsqueeze [full for flat stacks]: every rank, every stack dim, every position *)
 Theorem C08_unsqueeze : forall sd bs0 parts bs,
@@ -149,35 +144,16 @@ Theorem C08_unsqueeze : forall sd bs0 parts bs,
 Proof. exact unsqueeze_ok. Qed.
 Print Assumptions C08_unsqueeze.
 
-Definition C08_lazy_shape_ops_full_statement : Prop :=
-  forall sd bs0 parts bs fuel d0 d1 a',
-    parts <> [] -> Forall (fun p => shape_of p = Some bs) parts -> (sd <= List.length bs)%nat ->
-    (d0 < d1 < S (List.length bs))%nat ->
-    lz_transpose (S fuel) (Stack sd bs0 parts) (Z.of_nat d0) (Z.of_nat d1) = Ok a' ->
-    equiv_in a' (Transp d0 d1 (Stack sd bs0 parts)).
-(* permute / squeeze / unbind / split / repeat / expand / view: model + correspondence only (no theorem yet) *)
+(* permute / squeeze / unbind / split / repeat / expand / view, and transposes forwarded to nested lazy members:
+   model + correspondence only (no theorem yet) *)
 
 (* ---- cat(out=) offsets, insert / append -------------------------------------------------------------------- *)
-(* lazy_cat_offsets: with `init_idx += n` operand k goes to members [sum_{i<k} n_i, sum_{i<=k} n_i) ... *)
-Theorem C08_cat_offsets_fixed : forall sizes n_out init,
-  Forall (fun s => 0 <= s) sizes -> 0 <= init -> init + sumZ sizes <= n_out ->
-  cat_out_slices_gen true n_out init sizes = offsets init sizes.
-Proof. exact cat_offsets_fixed. Qed.
-Print Assumptions C08_cat_offsets_fixed.
-
-(* ... today's `init_idx += init_idx + n` is right for at most two operands [partial] ... *)
-Theorem C08_cat_offsets_partial : forall sizes n_out,
-  (List.length sizes <= 2)%nat -> Forall (fun s => 0 <= s) sizes -> sumZ sizes <= n_out ->
-  cat_out_slices_gen false n_out 0 sizes = cat_spec_slices sizes.
-Proof. exact cat_offsets_partial. Qed.
-Print Assumptions C08_cat_offsets_partial.
-
-(* ... and wrong from the third operand on [refuted] (D13) *)
-Theorem C08_cat_offsets_refuted :
-  exists sizes n_out, Forall (fun s => 0 < s) sizes /\ sumZ sizes = n_out /\
-                      cat_out_slices_gen false n_out 0 sizes <> cat_spec_slices sizes.
-Proof. exact cat_offsets_refuted. Qed.
-Print Assumptions C08_cat_offsets_refuted.
+(* lazy_cat_offsets (after fix C08-D13: init_idx += n): operand k is written to members [sum_{i<k} n_i, sum_{i<=k} n_i),
+   for any number of operands *)
+Theorem C08_cat_offsets : forall sizes n_out,
+  Forall (fun s => 0 <= s) sizes -> sumZ sizes <= n_out -> cat_out_slices n_out 0 sizes = cat_spec_slices sizes.
+Proof. exact cat_offsets. Qed.
+Print Assumptions C08_cat_offsets.
 
 (* insert_append_bs: list.insert on the member list, batch size recomputed with the new member count *)
 Theorem C08_insert_append_bs : forall sd bs0 parts bs i x a',
@@ -211,11 +187,15 @@ Example C08_ex_adv_after :
   exists a', lz_getitem 3 ex_tree [ISl None None None; ISl (Some 1) None None; ITen [2; 1] [1; 0]] = Ok a' /\
              shape_of a' = Some [2; 2; 2; 1].
 Proof. eexists. split; [vm_compute; reflexivity|reflexivity]. Qed.
-(* transpose: dims (0, 2) of a rank-3 stack with stack dim 1 are outside the D26 region and the call returns *)
+(* transpose across three positions from the stack dim (the former D26 witness): the dense answer [1;2;3;2] *)
 Example C08_ex_transpose :
-  negb ((Nat.eqb 0 1 && (0 + 3 <=? 2)%nat) || (Nat.eqb 2 1 && (0 + 2 <=? 2)%nat)) = true /\
-  exists a', lz_transpose 3 ex_tree 0 2 = Ok a' /\ shape_of a' = Some [2; 3; 2].
-Proof. split; [reflexivity|]. eexists. split; [vm_compute; reflexivity|reflexivity]. Qed.
+  exists a', lz_transpose 3 (Stack 0 [2; 3; 1] [Leaf 0 [2; 3; 1]; Leaf 1 [2; 3; 1]]) 0 3 = Ok a' /\
+             shape_of a' = shape_of (Transp 0 3 (Stack 0 [2; 3; 1] [Leaf 0 [2; 3; 1]; Leaf 1 [2; 3; 1]])) /\ shape_of a' = Some [1; 2; 3; 2].
+Proof. eexists. split; [vm_compute; reflexivity|]. split; reflexivity. Qed.
+Example C08_ex_tensor_write :
+  exists plan, run_setitem 3 (Stack 0 [3] [Leaf 0 [3]; Leaf 1 [3]]) [ITen [2] [1; 0]] [2; 3] = Ok plan /\
+               List.length plan = 2%nat /\ forallb (fun w => match w with WReplace _ _ => false | _ => true end) plan = true.
+Proof. eexists. split; [vm_compute; reflexivity|]. split; reflexivity. Qed.
 Example C08_ex_ellipsis :
   ell_basic [IEll; IInt (-1)] /\ spec_expand [IEll; IInt (-1)] 3 = Some [ISl None None None; ISl None None None; IInt (-1)] /\
   exists a', lz_getitem 3 ex_tree [IEll; IInt (-1)] = Ok a' /\ shape_of a' = Some [2; 3].
@@ -228,5 +208,5 @@ Example C08_ex_adv_before :
   exists a', lz_getitem 3 t (([INone] ++ ITen [2; 2] [1; 0; 0; 1] :: [IInt 0]) ++ ISl (Some 1) None None :: []) = Ok a' /\
              shape_of a' = Some [1; 2; 2; 2].
 Proof. cbn zeta. split; [constructor|]. split; [reflexivity|]. eexists. split; [vm_compute; reflexivity|reflexivity]. Qed.
-Example C08_ex_cat : cat_out_slices_gen false 4 0 [2; 2] = [(0, 2); (2, 4)] /\ cat_out_slices_gen false 3 0 [1; 1; 1] = [(0, 1); (1, 2); (3, 3)].
+Example C08_ex_cat : cat_out_slices 3 0 [1; 1; 1] = [(0, 1); (1, 2); (2, 3)] /\ cat_out_slices_gen false 3 0 [1; 1; 1] = [(0, 1); (1, 2); (3, 3)].
 Proof. split; reflexivity. Qed.
